@@ -165,9 +165,10 @@ Proof.
   intros W W' Il Ic. unfold map_block.
   destruct (wf_names geo (wf_unfold geo W') (lname lay) (cname col)) as [Ec El];
     [apply in_map, tl_layers_in; exact Il|apply cname_in_all; exact Ic|].
-  rewrite Ec, El, (CM_col self geo col W' Ic), (LM_lay self geo lay W' Il). cbn [bind].
+  rewrite Ec, El.
   destruct (str_eqb_spec (lname lay) (l0name geo)) as [E|_].
   { exfalso. destruct (tl_lnames_nodup geo W') as [_ N]. apply N. rewrite <- E. apply in_map; exact Il. }
+  rewrite (CM_col self geo col W' Ic), (LM_lay self geo lay W' Il). cbn [bind].
   destruct (closest_col_ok self col (cols_ne self W)) as [_ [Isc _]].
   pose proof (near_lay_in (tl (glayers self)) lay (tl_layers_ne self W)) as Isl.
   rewrite (col_lookup_in _ _ (cnames_nodup self W) Isc). cbn [bind].
@@ -176,43 +177,48 @@ Proof.
   destruct (surface_layer_first self _ W Isc) as [sl [E _]]. rewrite E. reflexivity.
 Qed.
 
-Lemma map_block_atm1 self geo col : wf self -> wf geo -> In col (gcols geo) ->
+Lemma map_block_atm1 self geo col : wf self -> wf geo -> In col (gcols geo) -> gatm geo = Atm1 ->
   map_block self geo (CM self geo) (LM self geo) (block_name geo (l0name geo) (cname col)) =
   Ok (block_name geo (l0name geo) (cname col),
       block_name self (l0name self) (match gatm self with Atm0 => atmcol self | _ => cname (near_col self col) end)).
 Proof.
-  intros W W' Ic. unfold map_block.
+  intros W W' Ic Eg. unfold map_block.
   destruct (wf_names geo (wf_unfold geo W') (l0name geo) (cname col)) as [Ec El];
     [apply l0name_in; exact W'|apply cname_in_all; exact Ic|].
-  rewrite Ec, El, (CM_col self geo col W' Ic), (LM_l0 self geo W'). cbn [bind].
-  rewrite str_eqb_refl. reflexivity.
+  rewrite Ec, El, str_eqb_refl, Eg, (CM_col self geo col W' Ic).
+  destruct (gatm self); reflexivity.
 Qed.
+
+(** the first source column: the stand-in when the target has one atmosphere block and the source has not *)
+Definition first_col (self : geom) : column := hd dcol (gcols self).
 
 Lemma map_block_atm0 self geo : wf self -> wf geo -> gatm geo = Atm0 ->
   map_block self geo (CM self geo) (LM self geo) (block_name geo (l0name geo) (atmcol geo)) =
-  match gatm self with
-  | Atm0 => Ok (block_name geo (l0name geo) (atmcol geo), block_name self (l0name self) (atmcol self))
-  | _ => Raise KeyError
-  end.
+  Ok (block_name geo (l0name geo) (atmcol geo),
+      block_name self (l0name self) (match gatm self with Atm0 => atmcol self | _ => cname (first_col self) end)).
 Proof.
-  intros W W' Ea. unfold map_block.
+  intros W W' Ea. unfold map_block, first_col.
   destruct (wf_names geo (wf_unfold geo W') (l0name geo) (atmcol geo)) as [Ec El];
     [apply l0name_in; exact W'|apply atmcol_in_all; exact Ea|].
-  rewrite Ec, El, (CM_atm self geo W' Ea).
-  destruct (gatm self); cbn [bind]; try reflexivity.
-  rewrite (LM_l0 self geo W'). cbn [bind]. rewrite str_eqb_refl. reflexivity.
+  rewrite Ec, El, str_eqb_refl, Ea.
+  pose proof (cols_ne self W) as NE. destruct (gcols self) as [|c cs]; [congruence|].
+  destruct (gatm self); reflexivity.
 Qed.
+
+Lemma first_col_in self : wf self -> In (first_col self) (gcols self).
+Proof. intro W. unfold first_col. pose proof (cols_ne self W) as NE. destruct (gcols self); [congruence|left; reflexivity]. Qed.
 
 Lemma map_block_fst self geo cm lm dest y : map_block self geo cm lm dest = Ok y -> fst y = dest.
 Proof.
   unfold map_block. intro H.
-  destruct (dget (column_name geo dest) cm); cbn [bind] in H; [|discriminate].
-  destruct (dget (layer_name geo dest) lm); cbn [bind] in H; [|discriminate].
-  destruct (str_eqb (layer_name geo dest) (l0name geo)); [inversion H; reflexivity|].
-  destruct (col_lookup (gcols self) a); cbn [bind] in H; [|discriminate].
-  destruct (lay_lookup (glayers self) a0); cbn [bind] in H; [|discriminate].
-  destruct (csurface a1 <=? lbottom a2)%Z; [|inversion H; reflexivity].
-  destruct (column_surface_layer self a1); cbn [bind] in H; [|discriminate]. inversion H; reflexivity.
+  destruct (str_eqb (layer_name geo dest) (l0name geo)).
+  - match type of H with bind ?r _ = _ => destruct r end; cbn [bind] in H; [|discriminate]. inversion H; reflexivity.
+  - destruct (dget (column_name geo dest) cm); cbn [bind] in H; [|discriminate].
+    destruct (dget (layer_name geo dest) lm); cbn [bind] in H; [|discriminate].
+    destruct (col_lookup (gcols self) a); cbn [bind] in H; [|discriminate].
+    destruct (lay_lookup (glayers self) a0); cbn [bind] in H; [|discriminate].
+    destruct (csurface a1 <=? lbottom a2)%Z; [|inversion H; reflexivity].
+    destruct (column_surface_layer self a1); cbn [bind] in H; [|discriminate]. inversion H; reflexivity.
 Qed.
 
 (** ** block_mapping *)
@@ -240,36 +246,23 @@ Proof.
   rewrite F. apply block_name_list_nodup. exact W'.
 Qed.
 
-(** the finding class: the target has a single atmosphere block and the source has not *)
-Definition atm_class (self geo : geom) : Prop := gatm geo = Atm0 /\ gatm self <> Atm0.
-
-Lemma map_block_total self geo : wf self -> wf geo -> ~ atm_class self geo ->
+(** every block of the target is mapped: the call is total (all nine atmosphere arrangements) *)
+Lemma map_block_total self geo : wf self -> wf geo ->
   forall dest, In dest (block_name_list geo) -> exists y, map_block self geo (CM self geo) (LM self geo) dest = Ok y.
 Proof.
-  intros W W' NC dest I. rewrite (block_name_list_eq geo W') in I. apply in_app_or in I as [I|I].
+  intros W W' dest I. rewrite (block_name_list_eq geo W') in I. apply in_app_or in I as [I|I].
   - unfold atm_blocks in I. destruct (gatm geo) eqn:Ea.
-    + destruct I as [E|[]]. subst dest. rewrite (map_block_atm0 self geo W W' Ea).
-      destruct (gatm self) eqn:Es; eauto; exfalso; apply NC; split; congruence.
-    + apply in_map_iff in I as [c [E Ic]]. subst dest. rewrite (map_block_atm1 self geo c W W' Ic). eauto.
+    + destruct I as [E|[]]. subst dest. rewrite (map_block_atm0 self geo W W' Ea). eauto.
+    + apply in_map_iff in I as [c [E Ic]]. subst dest. rewrite (map_block_atm1 self geo c W W' Ic Ea). eauto.
     + destruct I.
   - apply ug_blocks_in in I as [lay [c [Il [Ic [_ E]]]]]. subst dest. rewrite (map_block_ug self geo lay c W W' Il Ic). eauto.
 Qed.
 
-Lemma block_mapping_ok self geo : wf self -> wf geo -> ~ atm_class self geo ->
+Lemma block_mapping_ok self geo : wf self -> wf geo ->
   exists m, block_mapping nearest self geo = Ok (m, CM self geo).
 Proof.
-  intros W W' NC. rewrite (block_mapping_unfold self geo W W').
-  rewrite (mapM_total_fn _ (([], []) : str * str) _ (map_block_total self geo W W' NC)). cbn [bind]. eauto.
-Qed.
-
-(** in the finding class the call raises KeyError (on the very first block) *)
-Lemma block_mapping_raises self geo : wf self -> wf geo -> atm_class self geo ->
-  block_mapping nearest self geo = Raise KeyError.
-Proof.
-  intros W W' [Ea Es]. rewrite (block_mapping_unfold self geo W W').
-  rewrite (block_name_list_eq geo W'). unfold atm_blocks. rewrite Ea. cbn [app].
-  rewrite (mapM_first_raise _ _ _ KeyError); [reflexivity|].
-  rewrite (map_block_atm0 self geo W W' Ea). destruct (gatm self); congruence.
+  intros W W'. rewrite (block_mapping_unfold self geo W W').
+  rewrite (mapM_total_fn _ (([], []) : str * str) _ (map_block_total self geo W W')). cbn [bind]. eauto.
 Qed.
 
 (** ** the blocks a successful mapping assigns *)
